@@ -23,10 +23,11 @@ FSTRING_HOOKS = {}      # f-string template ('unmapped_{}_{}') -> handler(ev, st
 
 
 class PendingRaise:
-    def __init__(self, exc, conds, havoc_refs=()):
+    def __init__(self, exc, conds, havoc_refs=(), on_raise=None):
         self.exc = exc
         self.conds = list(conds)
         self.havoc_refs = list(havoc_refs)
+        self.on_raise = on_raise      # ghost effects that happened before the exception
 
 
 class Ctx:
@@ -593,7 +594,8 @@ class Evaluator:
                 elif o.ty[0] == 'opt':
                     r = T.opt_is_none(o.ty, o.term)
                 elif o.ty == T.OPAQUE:
-                    r = z3.Bool(fresh_name('isnone'))
+                    from .engine import IS_NONE
+                    r = IS_NONE(o.term)
                 else:
                     r = z3.BoolVal(False)
             elif a.ty == T.BOOL and b.ty == T.BOOL:
@@ -716,11 +718,35 @@ class Evaluator:
         for v in vs[1:]:
             vt = join_types(vt, v.ty)
             if vt is None:
-                raise Unsupported("heterogeneous dict literal")
+                return self._dict_literal_as_record(ks, vs)
         out = empty_dict(T.TDict(kt, vt))
         for k, v in zip(ks, vs):
             out = dict_store(out, coerce(k, kt).term, coerce(v, vt).term)
         return out
+
+    def _dict_literal_as_record(self, ks, vs):
+        """{'a': x, 'b': y} with values of different types: the value of the unique declared
+        record type (without rest) whose fields are exactly the constant keys and whose field
+        types accept the values"""
+        if not all(k.meta and k.meta[0] == 'const' and isinstance(k.meta[1], str) for k in ks):
+            raise Unsupported("heterogeneous dict literal")
+        keys = [k.meta[1] for k in ks]
+        if len(set(keys)) != len(keys):
+            raise Unsupported("heterogeneous dict literal with a repeated key")
+        found = []
+        for rname, flds in T.RECORDS.items():
+            if '__rest__' in flds or set(flds) != set(keys):
+                continue
+            try:
+                parts = {k: coerce(v, flds[k]).term for k, v in zip(keys, vs)}
+            except Unsupported:
+                continue
+            found.append((rname, parts))
+        if len(found) != 1:
+            raise Unsupported("heterogeneous dict literal (no unique matching record type declared)")
+        rname, parts = found[0]
+        ty = T.TRec(rname)
+        return SymVal(ty, T.ctor(ty)(*[parts[f] for f in T.RECORDS[rname]]))
 
     def e_Subscript(self, state, node):
         base = self.eval(state, node.value)
